@@ -28,6 +28,70 @@ pub fn check_elaboration(ctx: &mut Ctx, obs: &Obs, src: &str) {
     }
 }
 
+// An explicit program (without recursively defined type families, see edit.rs) after 1-3
+// scope-aware edits, printed.
+pub fn edited_program(r: &mut Rng, idx: u64) -> Option<(H, &'static str, String)> {
+    let p = crate::gen_prog::gen_program_without_rec_families(r, Mode::Explicit);
+    let (m, kind) = crate::edit::edits(&p.h, r)?;
+    let src = print(&m, &Style::varied(r), idx).text;
+    Some((m, kind, src))
+}
+
+// An edited explicit program that the reference still accepts must be accepted, with a type
+// convertible to the reference's.
+pub fn check_edited(ctx: &mut Ctx, m: &H, kind: &str, src: &str) {
+    ctx.eval();
+    // gram first: what it turns away before type checking (scoping, definition order) needs no
+    // reference verdict, and R-core may not terminate on a definition that refers to itself
+    let obs = observe(src, &[], &Opts::check_only());
+    match &obs.front {
+        Front::Accepted | Front::TypeErr(_) => {}
+        Front::Panic(stage, msg) => {
+            viol(ctx, &format!("edited-program-crashes@{}", crate::fw::panic_site(msg)), &format!("{stage} panicked: {msg}"), src);
+            return;
+        }
+        _ => {
+            ctx.count("edited:rejected-before-type-checking");
+            return;
+        }
+    }
+    let (nbe, rty) = match judge_source(m) {
+        SourceVerdict::WellTyped(n, t) => (n, t),
+        SourceVerdict::Unknown => {
+            ctx.inconclusive("reference-fuel");
+            return;
+        }
+        _ => {
+            ctx.count("edited:ill-typed-for-the-reference");
+            return;
+        }
+    };
+    ctx.count(&format!("edited-still-well-typed:{kind}"));
+    if let Front::TypeErr(msgs) = &obs.front {
+        viol(ctx, &format!("rejects-edited-well-typed:{kind}"), &format!("type_check rejected a fully annotated program that the reference checker accepts: {}", clip(&msgs.join(" | "), 600)), src);
+        return;
+    }
+    ctx.nontrivial(hash_str(src));
+    if let Some(ty) = &obs.ty {
+        match rcore_eval_closed(&nbe, ty) {
+            Ok(gty) => match nbe.conv(&rty, &gty) {
+                Ok(true) => ctx.count("edited:types-equal-to-reference"),
+                Ok(false) => {
+                    viol(ctx, "reported-type-differs-from-reference", &format!("gram reports type `{}` but the reference checker infers a type with head `{}`", clip(&obs.ty_text, 300), nbe.head(&rty)), src);
+                    return;
+                }
+                Err(_) => ctx.inconclusive("reference-fuel"),
+            },
+            Err(crate::core::Fail::Fuel) => ctx.inconclusive("reference-fuel"),
+            Err(e) => {
+                viol(ctx, "reported-type-not-evaluable", &format!("the reported type `{}` is not well formed: {e:?}", clip(&obs.ty_text, 300)), src);
+                return;
+            }
+        }
+    }
+    check_elaboration(ctx, &obs, src);
+}
+
 pub fn check_explicit(ctx: &mut Ctx, p: &Program, src: &str) {
     ctx.eval();
     let verdict = judge_source(&p.h);
@@ -111,8 +175,8 @@ impl Prop for C05P {
     }
     fn plan(&self, tier: Tier, _seed: u64) -> Plan {
         let mut p = Plan::new(
-            vec![sec("pinned", 200), sec("explicit-programs", tier.pick(40_000, 400_000)), sec("elaboration-of-accepted-programs", tier.pick(30_000, 300_000)), crate::fw::sec_ex("small-explicit-programs-exhaustive", crate::gen_small::total_upto(tier.pick(5, 6)).div_ceil(256))],
-            "type-directed generation of fully annotated well-typed programs (polymorphic, higher-order, dependent function types, recursive and mutually recursive groups of 1-5 definitions, forward type aliases, type-level redexes/conditionals/definitions in annotations, integers beyond 64 bits), printed with varied parenthesisation and layout; each must be accepted with a type convertible to the reference checker's and to the intended one; every fully annotated source program of at most 5 (quick) / 6 (thorough) nodes that the reference accepts must be accepted too; for every accepted program of any generator (explicit, inferred, syntactic) the elaborated term is compared with the parse output, holes of the source being the only wildcard; non-trivial = distinct accepted program",
+            vec![sec("pinned", 200), sec("explicit-programs", tier.pick(40_000, 400_000)), sec("elaboration-of-accepted-programs", tier.pick(30_000, 300_000)), sec("edited-explicit-programs", tier.pick(40_000, 400_000)), crate::fw::sec_ex("small-explicit-programs-exhaustive", crate::gen_small::total_upto(tier.pick(5, 6)).div_ceil(256))],
+            "type-directed generation of fully annotated well-typed programs (polymorphic, higher-order, dependent function types, recursive and mutually recursive groups of 1-5 definitions, forward type aliases, type-level redexes/conditionals/definitions in annotations, integers beyond 64 bits), printed with varied parenthesisation and layout; each must be accepted with a type convertible to the reference checker's and to the intended one; every fully annotated source program of at most 5 (quick) / 6 (thorough) nodes that the reference accepts must be accepted too; for every accepted program of any generator (explicit, inferred, syntactic) the elaborated term is compared with the parse output, holes of the source being the only wildcard; scope-aware edits of explicit programs (another variable in scope, a neighbouring literal, another operator of its class, mirrored comparisons, swapped branches, a definition or an applied binder put around a node, an annotation or a domain named by an alias of its own group; 1-3 edits) that the reference checker still accepts must be accepted with a type convertible to the reference's; non-trivial = distinct accepted program",
         );
         p.assumptions = vec![
             "R-core (harness/src/core.rs) implements the typing rules of DESIGN.md A.5/A.6; programs it cannot judge within its fuel are inconclusive".into(),
@@ -184,12 +248,17 @@ impl Prop for C05P {
                     }
                 }
             }
+            "edited-explicit-programs" => {
+                let mut r = Rng::for_case(ctx.seed, 5, idx);
+                let Some((m, kind, src)) = edited_program(&mut r, idx) else { return };
+                check_edited(ctx, &m, kind, &src);
+            }
             "elaboration-of-accepted-programs" => {
                 let mut r = Rng::for_case(ctx.seed, 2, idx);
                 let src = if idx % 3 == 0 {
                     // single-point perturbations of explicit programs (whatever is still accepted)
                     let p = gen_program(&mut r, Mode::Explicit);
-                    let m = crate::perturb::perturb(&p.h, &mut r).map_or(p.h.clone(), |x| x.0);
+                    let m = crate::perturb::perturb_or_edit(&p.h, &mut r).map_or(p.h.clone(), |x| x.0);
                     print(&m, &Style::varied(&mut r), idx).text
                 } else {
                     let p = gen_program(&mut r, Mode::Inferred);
@@ -214,11 +283,15 @@ impl Prop for C05P {
                 let style = Style::varied(&mut r);
                 print(&p.h, &style, idx).text
             }
+            "edited-explicit-programs" => {
+                let mut r = Rng::for_case(seed, 5, idx);
+                edited_program(&mut r, idx).map_or(String::new(), |x| x.2)
+            }
             "elaboration-of-accepted-programs" => {
                 let mut r = Rng::for_case(seed, 2, idx);
                 if idx % 3 == 0 {
                     let p = gen_program(&mut r, Mode::Explicit);
-                    let m = crate::perturb::perturb(&p.h, &mut r).map_or(p.h.clone(), |x| x.0);
+                    let m = crate::perturb::perturb_or_edit(&p.h, &mut r).map_or(p.h.clone(), |x| x.0);
                     print(&m, &Style::varied(&mut r), idx).text
                 } else {
                     let p = gen_program(&mut r, Mode::Inferred);
